@@ -150,6 +150,8 @@ type World struct {
 	stopEverAsked    bool
 	started          bool
 	regLost          []string
+	stopAskedStep    int
+	floodUsers       int // application tasks that issue asynchronous writes until Run returns
 	spinSeen         bool
 	execCounter      int
 	stopCtxErrSeen   bool
@@ -515,6 +517,7 @@ func (w *World) requestStop() {
 	}
 	w.stopRequested = true
 	w.logf("stop requested via %s at step %d", w.p.Stop.Source, w.s.Step())
+	w.stopAskedStep = w.s.Step()
 	if w.p.Cfg.Client {
 		w.markLocalAll()
 		w.clientStop = true
@@ -970,6 +973,11 @@ func (w *World) finish() {
 	w.logf("finish: phase=%d stop=%s steps=%d", w.ph, w.s.StopWhy(), w.s.Step())
 	if w.spinSeen && !w.runDone && (w.s.StopWhy() == "spin" || w.s.StopWhy() == "step-cap") {
 		w.violate("C06", "spin", "%s; the shutdown requested meanwhile never completed (OnShutdown calls: %d)", w.k.SpinDesc, w.shutdownCount)
+	} else if w.s.StopWhy() == "step-cap" && w.floodUsers > 0 && w.stopAskedStep > 0 && !w.runDone && w.s.Step()-w.stopAskedStep > 25000 && w.p.Cfg.Strategy != "pct" && len(w.p.Faults) == 0 && w.stopFailed == 0 {
+		// an application goroutine kept issuing asynchronous writes for as long as
+		// the engine ran; the stop request was accepted 25000+ scheduler decisions
+		// ago and Run still has not returned: the shutdown is not bounded under load
+		w.violate("C06", "hang-under-load", "Stop was requested at step %d while an application goroutine keeps issuing AsyncWrite; %d scheduler steps later Run has not returned (OnShutdown calls: %d)", w.stopAskedStep, w.s.Step()-w.stopAskedStep, w.shutdownCount)
 	} else if w.s.StopWhy() == "step-cap" {
 		w.violate("HARNESS", "step-cap", "step cap reached in phase %d", w.ph)
 	}
